@@ -1,4 +1,6 @@
+mod c09;
 mod c16;
+mod recdest;
 mod rng;
 
 use std::io::Write;
@@ -32,6 +34,8 @@ fn main() {
     };
     match (args[1].as_str(), args[2].as_str()) {
         ("gen", "C16") => c16::generate(seed, &tier, &mut out),
+        ("gen", "C09") => c09::generate("C09", seed, &tier, &mut out),
+        ("gen", "C10") => c09::generate("C10", seed, &tier, &mut out),
         _ => usage(),
     }
     out.flush().unwrap();
